@@ -26,8 +26,12 @@
 (*   F23  file list strips ".incomplete" anywhere in a name                *)
 (*   F24  requests that resolve to the root folder itself use fork side    *)
 (*        files NEXT TO the root (.info_<root>, .rsrc_<root>, <root>.inc.) *)
+(*   F26  a new (non-resume) upload appends to a left-over partial file   *)
 (*   F10b / F11b  alternative repairs (per-segment clean; base name of the *)
 (*        cleaned new path) - contained, only the landing place differs    *)
+(*   F24b / F25b  alternative repairs: requests that resolve to the root   *)
+(*        itself are refused; an alias of a source that does not exist is  *)
+(*        refused                                                          *)
 (***************************************************************************)
 EXTENDS Integers, Sequences, FiniteSets, TLC
 
@@ -41,7 +45,7 @@ VARIABLES tree,    \* path -> [k, s, c, t]
 
 fvars == <<tree, rootp, usersp, ignore, mem>>
 
-AllDevs == {"F4", "F10", "F10b", "F11", "F11b", "F12", "F23", "F24"}
+AllDevs == {"F4", "F10", "F10b", "F11", "F11b", "F12", "F23", "F24", "F24b", "F25b", "F26"}
 
 (* ---- byte strings --------------------------------------------------------- *)
 Absent == <<-1>>                  \* "this field is not in the request"
@@ -197,8 +201,9 @@ RemoveAllFS(t, p) == IF ~ValidPath(p) THEN Fail(t, "other") ELSE Good(Without(t,
 (* os.Rename *)
 RenameFS(t, a, b) ==
   IF ~ValidPath(a) \/ ~ValidPath(b) THEN Fail(t, "other")
-  ELSE IF ~Has(t, a) THEN Fail(t, IF NotDirPrefix(t, a) THEN "other" ELSE "noent")
+  ELSE IF ParentErr(t, a) # "" THEN Fail(t, ParentErr(t, a))        \* both parents are looked up before the source
   ELSE IF ParentErr(t, b) # "" THEN Fail(t, ParentErr(t, b))
+  ELSE IF ~Has(t, a) THEN Fail(t, "noent")
   ELSE IF Has(t, b) /\ t[b].k = "dir" THEN Fail(t, "other")       \* Go's os.Rename refuses an existing directory as target
   ELSE IF a = b THEN Good(t)
   ELSE IF t[a].k = "dir" /\ IsPrefix(a, b) THEN Fail(t, "other")
@@ -378,8 +383,10 @@ DoUpload(t, m, s, rp, D, n) ==
   LET pr == ParsePath(s.path, D)
       p == Resolve(rp, pr.items, Val(s.name))
       inc == Parent(p) \o <<Base(p) \o Incomplete>>
-      old == IF Has(t, inc) /\ t[inc].k = "file" THEN t[inc].s ELSE 0
-      s1 == Then(Run0(t), CreateFS(t, inc, FileN(old + n)), FALSE)
+      stale == "F26" \in D                     \* pinned tree: a new upload appends to a left-over partial file
+      old == IF stale /\ Has(t, inc) /\ t[inc].k = "file" THEN t[inc].s ELSE 0
+      s0 == IF stale THEN Run0(t) ELSE Then(Run0(t), RemoveFS(t, inc), TRUE)     \* the request discards old partial data
+      s1 == Then(s0, CreateFS(s0.t, inc, FileN(old + n)), FALSE)
       s2 == Then(s1, RenameFS(s1.t, inc, p), FALSE)
   IN IF pr.st = "panic" THEN Res(t, m, "closed", {})
      ELSE IF pr.st = "err" THEN Res(t, m, "none", {})
@@ -446,8 +453,12 @@ DoAcct(t, m, s, up, D) ==
 UploadBytes == 3      \* the drivers upload 3 data bytes per file
 Kinds == {"list", "info", "download", "dlfolder", "newfolder", "rename", "setcomment", "move", "delete", "alias",
           "upload", "upfolder", "acct"}
+AtRoot(s, rp, D) == LET pr == ParsePath(s.path, D) IN pr.st = "ok" /\ Resolve(rp, pr.items, Val(s.name)) = rp
 Do(t, m, s, rp, up, ign, D) ==
-  CASE s.kind = "list" -> DoList(t, m, s, rp, ign, D)
+  CASE "F24b" \in D /\ s.kind \in {"info", "download", "setcomment", "rename", "move", "delete"} /\ AtRoot(s, rp, D) -> Res(t, m, "err", {})
+    [] "F25b" \in D /\ s.kind = "alias" /\ (LET pr == ParsePath(s.path, D) IN pr.st = "ok" /\ StatErr(t, Resolve(rp, pr.items, Val(s.name))) # "ok")
+         -> Res(t, m, "err", {})
+    [] s.kind = "list" -> DoList(t, m, s, rp, ign, D)
     [] s.kind \in {"info", "download", "dlfolder"} -> DoRead(t, m, s, rp, D)
     [] s.kind = "newfolder" -> DoNewFolder(t, m, s, rp, D)
     [] s.kind \in {"rename", "setcomment"} -> DoSetInfo(t, m, s, rp, D)
